@@ -252,7 +252,7 @@ func runC20Rest(c *Ctx) {
 				c.Check("C20-R4", "rebroadcast-loop-complete", l.Header.Instrs[0].Pos(), len(exits) == 0,
 					"the rebroadcast loop can be left before every unconfirmed transaction was offered: "+strings.Join(exits, "; "))
 				// in-order: index loop over the slice itself (rangeindex), no reverse/sort in between
-				c.Check("C20-R4", "rebroadcast-in-order", l.Header.Instrs[0].Pos(), l.Kind == "rangeindex", "the rebroadcast list is not iterated in slice order")
+				c.Check("C20-R4", "rebroadcast-in-order", l.Header.Instrs[0].Pos(), l.Kind == "rangeindex" || l.Kind == "forindex", "the rebroadcast list is not iterated in slice order")
 			}
 		}
 		c.Floor("C20-R4", "rebroadcast loops", nLoop, 1)
